@@ -119,6 +119,13 @@ pub fn finish<H: Harness>(
 }
 
 pub fn do_replay<H: Harness>(h: &H, rf: &ReplayFile<H::Sc>, path: &str, quiet: bool) -> i32 {
+    // a scenario that aborts the process is reported by the SIGABRT handler (exit status 1)
+    crate::abortguard::set_context(crate::abortguard::Ctx {
+        harness: h.name().to_string(),
+        property: rf.property.clone(),
+        seed: rf.seed,
+        dir: std::path::Path::new(path).parent().map(|p| p.to_path_buf()).unwrap_or_else(|| verif_dir().join("replays")),
+    });
     match replay_file(h, rf, true) {
         ReplayVerdict::Reproduced(v, trace) => {
             if !quiet {
